@@ -1763,3 +1763,22 @@ for _cell in ["interval", "triangle", "quadrilateral"]:
 
         _it = ("exterior_facet", "interior_facet") if _var == "facet" else ("cell",)
         reg(f"shared_op_{_var}_{_cell}", ("c02" if _var == "facet" else "c01") + " c11 c11md c08 c17" + (" q" if _cell == "triangle" or (_cell == "interval" and _var in ("square", "nested")) else ""), itypes=_it)(_mk)
+
+
+# ---- prism: facet integrals over several subdomain ids (two kernels per id: triangle and quadrilateral facets) ----
+
+@reg("multi_ids_prism_ds", "c06 c02 c08 c18 q", itypes=("cell", "exterior_facet"))
+def _():
+    m = mesh("prism")
+    V = space(m)
+    v = TestFunction(V)
+    f = ufl.Coefficient(V)
+    return f * v * ds((1, 3)) + 3.0 * f * f * v * ds(2) + f * v * dx
+
+
+@reg("multi_ids_prism_ds_everywhere", "c06 c02 q", itypes=("exterior_facet",))
+def _():
+    m = mesh("prism")
+    V = space(m)
+    u, v = TrialFunction(V), TestFunction(V)
+    return u * v * ds + 2.0 * u * v * ds(1) + 5.0 * u * v * ds((4, 2))
